@@ -31,8 +31,11 @@
 (*  recording-after-end    IsRecording called after an End returned says true    *)
 (*  not-recording-before-end   IsRecording returned false before any End call    *)
 (*  snapshot-mutated       a kept snapshot reads differently later               *)
-(*  panic / deadlock       a call panicked / calls never returned, blocked on a  *)
-(*                         lock                                                  *)
+(*  panic / deadlock       a call panicked / calls never returned: every         *)
+(*                         goroutine of the scenario parked, one on an SDK lock  *)
+(*                         (also re-entrant calls made from processor callbacks) *)
+(* The sampling decision of a span (Cfg.sampled: RecordAndSample / RecordOnly) is *)
+(* recorded and deliberately used by NO clause: every recording span counts.     *)
 EXTENDS Naturals, Sequences, FiniteSets, TLC
 
 Put(f, k, v) == [x \in (DOMAIN f) \cup {k} |-> IF x = k THEN v ELSE f[x]]
@@ -51,7 +54,9 @@ FreshSpan == [endCalled |-> FALSE, endOpen |-> 0, endRet |-> FALSE,
               inWin |-> {},          \* procs whose End passed the recording check into the unlock window
               winOverlap |-> FALSE]  \* two of them did (the signature of D1)
 Fresh(cfg) == [cfg |-> cfg, sp |-> <<>>,
-               regRet |-> {}]   \* processors whose RegisterSpanProcessor call has returned
+               regRet |-> {},   \* processors whose RegisterSpanProcessor call has returned
+               sd |-> FALSE,    \* a TracerProvider.Shutdown call has begun: who still gets what is C15's subject
+               unreg |-> {}]    \* processors some UnregisterSpanProcessor call has named
 
 Sp(m, s) == IF s \in DOMAIN m.sp THEN m.sp[s] ELSE FreshSpan
 With(m, s, r) == [m EXCEPT !.sp = Put(@, s, r)]
@@ -73,10 +78,12 @@ Step(m, e) ==
                                      !.implicit = (@ \/ e.arg = 0)]), {}>>
     [] e.ev = "Ret" /\ e.op = "End" ->
          LET r == Sp(m, e.span)
-             missing == {p \in r.must : Count(r, p) = 0} IN
+             missing == IF m.sd THEN {} ELSE {p \in r.must \ m.unreg : Count(r, p) = 0} IN
          <<With(m, e.span, [r EXCEPT !.endOpen = @ - 1, !.endRet = TRUE]),
            IF r.endOpen = 1 /\ missing # {} THEN {V(m, e.span, "not-delivered", missing)} ELSE {}>>
     [] e.ev = "Ret" /\ e.op = "Reg" -> <<[m EXCEPT !.regRet = @ \cup {e.arg}], {}>>
+    [] e.ev = "Call" /\ e.op = "SD" -> <<[m EXCEPT !.sd = TRUE], {}>>
+    [] e.ev = "Call" /\ e.op = "Unreg" -> <<[m EXCEPT !.unreg = @ \cup {e.arg}], {}>>
     [] e.ev = "Call" /\ e.op = "Mut" ->
          LET r == Sp(m, e.span) IN
          <<With(m, e.span, [r EXCEPT !.called = @ \cup {e.arg},
@@ -142,7 +149,9 @@ Step(m, e) ==
          <<m, (IF \E i \in 1..Len(e.handed) : e.handed[i] > 1 THEN {B("delivered-twice")} ELSE {})
               \cup (IF \E i \in 1..m.cfg.nprocs : i > Len(e.handed) \/ e.handed[i] = 0 THEN {B("not-delivered")} ELSE {})
               \cup (IF e.nets > 1 THEN {B("end-time-differs")} ELSE {})
-              \cup (IF e.rec THEN {B("recording-after-end")} ELSE {})>>
+              \cup (IF e.rec THEN {B("recording-after-end")} ELSE {})
+              \* children started (and ended) before End was called: exact, whatever the sampling decision of the parent
+              \cup (IF e.child # e.children THEN {[B("child-count") EXCEPT !.detail = <<e.children, e.child, e.sampled>>]} ELSE {})>>
     [] e.ev = "Bulk2" ->     \* volume stress: one End and one call of each mutator at once on a span whose queues are full
          LET B(kind, d) == [kind |-> kind, span |-> e.span, rt |-> m.cfg.rt, hooks |-> m.cfg.hooks,
                             overlap |-> FALSE, win |-> FALSE, detail |-> d] IN
@@ -152,6 +161,6 @@ Step(m, e) ==
               \cup (IF e.handed > 0 /\ ~QueueOK(m.cfg.lim, e.evmiss, e.evdrop) THEN {B("torn-mutation", <<"events", e.evmiss, e.evdrop>>)} ELSE {})
               \cup (IF e.handed > 0 /\ ~QueueOK(m.cfg.lim, e.lkmiss, e.lkdrop) THEN {B("torn-mutation", <<"links", e.lkmiss, e.lkdrop>>)} ELSE {})>>
     [] e.ev = "Panic" -> <<m, {V(m, e.span, "panic", e.proc)}>>
-    [] e.ev = "Stuck" -> <<m, IF e.deadlock THEN {V(m, 0, "deadlock", e.procs)} ELSE {}>>
+    [] e.ev = "Stuck" -> <<m, IF e.deadlock THEN {V(m, 0, "deadlock", e.where)} ELSE {}>>
     [] OTHER -> <<m, {}>>
 =============================================================================
